@@ -54,6 +54,12 @@ impl Check for C01 {
         let mut o = cases::doc_opts_for(tier, &mut rng);
         o.noncanonical_pct = 0;
         o.raw_pct = *rng.pick(&[0u64, 0, 8, 20]);
+        if rng.chance(1, 40) {
+            // payloads around the default buffer length (64 KiB) and the powers of two above it
+            o.pay.max_len = *rng.pick(&[65537usize, 65537, 131073, 262144]);
+            o.pay.boundary_pct = 60;
+            o.max_nodes = 8;
+        }
         if tier == Tier::Thorough && rng.chance(1, 400) {
             o.pay.max_len = 2_097_153;
             o.pay.boundary_pct = 40;
